@@ -2,4 +2,4 @@ import Aergo.Model.ChainDriver
 
 /-! Model driver for C05: `model-c05 < ops > out` (session step function: `C05Drv.step`, shared with C07). -/
 
-def main : IO UInt32 := Aergo.DriverLib.run (none : Option Aergo.Chain.Node) C05Drv.step
+def main : IO UInt32 := Aergo.DriverLib.run (none : Option C05Drv.Sess) C05Drv.step
